@@ -44,7 +44,7 @@ def predicate(tr, rep):
         j = int(np.argmax(f))
         if st["max_fitness"][i] != f[j] or not L.same(st["max_g"][i], st["population_g"][i][j]) or not L.same(st["max_ph"][i], st["population_ph"][i][j]):
             rep.problem("history", f"max_fitness/max_g/max_ph of generation {i} are not the first arg-max of fitness[{i}]", dict(where, generation=i),
-                        "history-max", True, float(st["max_fitness"][i]), float(f[j]), "C17_entries_consistent")
+                        "history-max", True, LT.num(st["max_fitness"][i]), LT.num(f[j]), "C17_entries_consistent")
     if tr["init"] is not None:
         if not L.same(st["population_g"][0], tr["init_before"]):
             rep.problem("history", "population_g[0] differs from the supplied init_population", where, "history-init", True)
